@@ -184,7 +184,7 @@ func c11Run(c *lib.Ctx, rng *lib.Rand, idx uint64, nfiles int, large bool) {
 					var opts []fit.DecodeOption
 					c11WithOpts = false
 					if ci == len(chunkers)-1 && cut%2 == 1 && (ep == "Decode" || ep == "DecodeChained") {
-						opts = []fit.DecodeOption{fit.WithUnknownFields(), fit.WithUnknownMessages(), fit.WithLogger(&countingLogger{})}
+						opts = optionList(7, &countingLogger{}, uint64(cut))
 						c11WithOpts = true
 					}
 					o := lib.Guard(func() { res = lib.Call(ep, r, opts...) })
